@@ -285,7 +285,7 @@ inductive RealSite
   | marshaller         -- marshals/api.py:37, keyed by annotation
   | unmarshaller       -- unmarshals/api.py:32, keyed by annotation
   | codec              -- codecs.py:17, keyed by annotation (+ keyword arguments)
-  | staticOrder        -- graph.py:32, keyed by annotation; returns the cached `list`
+  | staticOrder        -- graph.py `_static_order` behind `static_order`, keyed by annotation; the memo is a tuple, callers get a fresh list (dd76572)
   | typeContext        -- ctx.py:25-45: per-routine dict keyed by annotation, `__missing__` memo
   | delayedResolved    -- marshals/api.py:90-99, unmarshals/api.py:84-93: one-slot memo, no key
   | typingGenericCache -- typing.py `_tp_cache` behind `typing.List[...]`, `typing.Union[...]`
@@ -334,7 +334,7 @@ def classify : RealSite → SiteClass
   | .marshaller         => ⟨false, true,  false, true⟩
   | .unmarshaller       => ⟨false, true,  false, true⟩
   | .codec              => ⟨false, true,  false, true⟩
-  | .staticOrder        => ⟨false, true,  true,  false⟩  -- the cached list itself; only read by marshaller/unmarshaller
+  | .staticOrder        => ⟨false, true,  false, false⟩  -- the memoised tuple (immutable); `static_order` copies it into a new list per call
   | .typeContext        => ⟨false, true,  false, false⟩
   | .delayedResolved    => ⟨true,  true,  false, false⟩
   | .typingGenericCache => ⟨false, true,  false, false⟩
